@@ -57,6 +57,15 @@ CLAIMED = {
    technique="contract-based deductive verification: VCs from the jaxpr of jax.grad of the real evaluate with symbolic "
              "idempotent Boolean masks, ring normalisation + z3; bounded exhaustive stand-in for the mask builders",
    design_ref="DESIGN.md §5 C06", note=B_NOTE + " System-loss per-unknown terms reuse these single losses (C13)."),
+ "C10": dict(
+   text="PINN: u(inputs, params) == output_transform(in, squeeze(M(input_transform(in, params))), params)[output_slice] "
+        "with a trailing axis always, scalar or (1,) time, bare nn_params accepted; create_PINN shared outputs are "
+        "slices of one network; SPINN output == tensor grid of sum_r prod_d f_d(x_d) (time first, one slot per output); "
+        "HYPERPINN == inner MLP with weights = hyper-network output split in parameter-leaf order. All for "
+        "uninterpreted inner networks / transforms and symbolic inputs.",
+   technique="contract-based deductive verification: VCs from the jaxpr of the real wrapper classes (built by the real "
+             "constructors) over uninterpreted inner functions, ring normalisation + z3",
+   design_ref="DESIGN.md §5 C10", note=B_NOTE + " Architectures enumerated (widths/outputs <= 3, d <= 3)."),
 }
 PENDING_REASON = "check not built yet (framework under construction); will be claimed once its contracts verify"
 NA = {}
